@@ -164,10 +164,12 @@ def h_triples(ctx, cfg):
 def h_scorer_reuse(ctx, cfg):
     """one scorer object scores twice, with different numbers of posterior samples: the triples of each call are pairwise
     distinct triples of that call's samples, min(C(n,3), budget) of them"""
-    from .c05 import _Plate, _Theta
+    from .c05 import _views, _theta_class
     np = ctx.np
     gd = ctx.mod("batchie.scoring.gaussian_dbal")
     core = ctx.mod("batchie.core")
+    _Theta = _theta_class(core)
+    _screen, _names, _pv = _views(ctx, [1, 2])
     dc = ctx.mod("batchie.distance_calculation")
     budget = cfg["budget"]
     scorer = gd.GaussianDBALScorer(max_chunk=5, max_triples=budget)
@@ -188,7 +190,7 @@ def h_scorer_reuse(ctx, cfg):
 
             def is_complete(self):
                 return True
-        plates = {4: _Plate(np, 3, 0, 1), 9: _Plate(np, 3, 1, 2)}
+        plates = {4: _pv[0], 9: _pv[1]}
         scorer.score(plates=plates, distance_matrix=_DM(), samples=holder, rng=_Adversarial(), progress_bar=False)
         seen = rec.triples(ctx)
         want = min(math.comb(nt, 3), budget)
